@@ -166,8 +166,10 @@ def expand_procedures(func: ast.FunctionDef, resolver, depth: int = 0) -> ast.Fu
 class Flow:
     def __init__(self, func: ast.FunctionDef, file: str = "", consts: dict | None = None,
                  self_name: str | None = None, keep_arms: bool = False, resolver=None, _depth: int = 0, _env: dict | None = None,
-                 proc_resolver=None):
+                 proc_resolver=None, func_resolver=None):
         # proc_resolver: name -> FunctionDef of a helper PROCEDURE of the same class, expanded in place as statements
+        # func_resolver: name -> FunctionDef of a small pure MODULE-LEVEL helper function called by its bare name (inlined)
+        self.func_resolver = func_resolver
         if proc_resolver is not None and _depth == 0:
             func = expand_procedures(func, proc_resolver)
         self.keep_arms = keep_arms
@@ -419,6 +421,12 @@ class Flow:
                     out = ("phi", ("cmp", ("Eq",), (key, k)), inl, out)
                 if ok:
                     return out
+        if isinstance(f, ast.Name) and self.func_resolver is not None and f.id not in self.env and self._depth < 2 and all(k != "**" for k, _ in kws):
+            callee = self.func_resolver(f.id)
+            if callee is not None and callee is not self.func:
+                inl = self._inline(callee, args, dict(kws), bare=True)
+                if inl is not None:
+                    return inl
         if isinstance(f, ast.Name) and f.id in TRANSPARENT and len(args) == 1 and not kws and f.id not in self.env:
             if f.id == "tqdm" or args[0][0] in ("comp", "list", "acc"):
                 return args[0]
@@ -465,9 +473,9 @@ class Flow:
                 parts.append(("fmt", val, spec or None, c))
         return flatten_fstr(("fstr", tuple(parts)))
 
-    def _inline(self, callee, args, kws=None):
+    def _inline(self, callee, args, kws=None, bare=False):
         """Value returned by a small, loop-free helper method for these argument values (phi over its returns).  Instance, class
-        and static methods; positional and keyword arguments; defaults."""
+        and static methods (bare=True: a module-level function, no receiver); positional and keyword arguments; defaults."""
         kws = kws or {}
         if any(isinstance(n, (ast.For, ast.While, ast.Try, ast.With, ast.Yield)) for n in ast.walk(callee)):
             return None
@@ -476,7 +484,7 @@ class Flow:
         if callee.args.vararg or callee.args.kwarg or callee.args.kwonlyargs or decs - {"staticmethod", "classmethod"}:
             return None
         preset = {}
-        if "staticmethod" not in decs:
+        if "staticmethod" not in decs and not bare:
             if not params:
                 return None
             recv, params = params[0], params[1:]
@@ -493,7 +501,8 @@ class Flow:
                 preset[p_] = self.ev(defaults[p_]) if isinstance(defaults[p_], ast.Constant) else None
                 if preset[p_] is None:
                     return None
-        sub = Flow(callee, self.file, keep_arms=False, resolver=self.resolver, _depth=self._depth + 1, _env=preset, consts=self.consts)
+        sub = Flow(callee, self.file, keep_arms=False, resolver=self.resolver, _depth=self._depth + 1, _env=preset, consts=self.consts,
+                   func_resolver=self.func_resolver)
         rets = [(f.value, list(f.guards)) for f in sub.facts if f.kind == "return"]
         if not rets or any(f.kind in ("store", "augstore", "attrstore", "append", "mutate") for f in sub.facts):
             return None
